@@ -12,8 +12,8 @@
   * Numbers that are not canonical-JSON integers (fractions, |n| > 2^53 − 1) are not properties.
   * `event_match` compares string properties with the glob of `Spec/Glob.lean`: on word boundaries
     for `content.body`, on the whole value for every other key; `room_id` is the room the event was
-    received in. `contains_display_name` is the word-boundary match of the display name in
-    `content.body`. Content rules are `event_match` on `content.body`, room and sender rules are
+    received in. `contains_display_name`: `content.body` contains the display name as literal text
+    (its `*` and `?` are ordinary characters) between word boundaries. Content rules are `event_match` on `content.body`, room and sender rules are
     `event_match` on `room_id` / `sender` with the rule id as pattern.
   * An event sent by the user themselves matches nothing; disabled rules never match; the legacy
     mention rules do not match events that carry `content.m.mentions`.
@@ -23,7 +23,7 @@ import RumaModel.Model.Push
 namespace Ruma.Spec.Push
 open Ruma.Push (Text PJ Scalar Cond CmpOp MemberCountIs Ctx PowerLevelsCtx CondRule PatRule SimpleRule
   Ruleset AnyRule)
-open Ruma.Spec.Glob (wordMatchDecide valueDecide wordMatches valueMatches)
+open Ruma.Spec.Glob (wordMatchDecide valueDecide wordMatches valueMatches containsWordDecide containsWordMatches)
 
 def keyRoomId : Text := "room_id".toList
 def keyContentBody : Text := "content.body".toList
@@ -166,7 +166,7 @@ def condHolds (P : Params) (ev : PJ) (ctx : Ctx) : Cond → Bool
   | .containsDisplayName =>
     match lookupStr ev keyContentBody with
     | none => false
-    | some v => wordMatchDecide P.lower ctx.displayName v
+    | some v => containsWordDecide P.lower ctx.displayName v
   | .roomMemberCount is => compare is.prefix_ ctx.memberCount is.count
   | .senderNotificationPermission key =>
     match ctx.powerLevels, lookupStr ev keySender with
@@ -242,7 +242,7 @@ def CondHolds (P : Params) (ev : PJ) (ctx : Ctx) : Cond → Prop
     ∃ v, (if key = keyRoomId then v = ctx.roomId else lookupStr ev key = some v) ∧
       (if key = keyContentBody then wordMatches P.lower pattern v else valueMatches P.lower pattern v)
   | .containsDisplayName =>
-    ∃ body, lookupStr ev keyContentBody = some body ∧ wordMatches P.lower ctx.displayName body
+    ∃ body, lookupStr ev keyContentBody = some body ∧ containsWordMatches P.lower ctx.displayName body
   | .roomMemberCount is =>
     match is.prefix_ with
     | .eq => ctx.memberCount = is.count
